@@ -28,6 +28,8 @@ func main() {
 		canonCmd(out, *seed, *tier)
 	case "topo":
 		topoCmd(out, *seed, *tier)
+	case "store":
+		storeCmd(out, *seed, *tier)
 	default:
 		fmt.Fprintln(os.Stderr, "unknown command", cmd)
 		os.Exit(2)
